@@ -25,10 +25,10 @@ type Exec struct {
 	depth  int
 	topFn  *ssa.Function
 	// options
-	maxInline int
-	useGInv   bool
-	lockCheck bool
-	fieldOf   map[string][2]string
+	maxInline  int
+	useGInv    bool
+	lockCheck  bool
+	fieldOf    map[string][2]string
 	inFieldInv bool
 }
 
@@ -66,6 +66,7 @@ type Frame struct {
 	top      bool
 	entrySt  *State
 	names    map[string]ssa.Value // single-definition named locals
+	multi    map[string][]ssa.Value // named locals with several defining values (resolved per loop by dominance)
 	params   map[string]*Val
 	pending  []func() // step obligations, generated once every block has been executed
 	cur      *State   // state while executing a block
@@ -258,6 +259,18 @@ func (fr *Frame) collectNames() {
 				}
 				if v, ok := obj.(*types.Var); ok {
 					n := v.Name()
+					if fr.multi == nil {
+						fr.multi = map[string][]ssa.Value{}
+					}
+					dup := false
+					for _, pv := range fr.multi[n] {
+						if pv == d.X {
+							dup = true
+						}
+					}
+					if !dup {
+						fr.multi[n] = append(fr.multi[n], d.X)
+					}
 					if prev, ok := val[n]; !ok || prev != d.X {
 						if !ok {
 							count[n] = 1
@@ -375,6 +388,11 @@ func (fr *Frame) mergeVals(phi *ssa.Phi, conds []string, vals []*Val) *Val {
 		}
 	}
 	if allSame {
+		if b := mergeBorrow(conds, vals); b != nil && vals[0].Borrow == nil {
+			nv := *vals[0]
+			nv.Borrow = b
+			return &nv
+		}
 		return vals[0]
 	}
 	if s.K == KTuple {
@@ -390,6 +408,7 @@ func (fr *Frame) mergeVals(phi *ssa.Phi, conds []string, vals []*Val) *Val {
 		name = phi.Name()
 	}
 	r := &Val{T: ex.vc.define(name, s, t), S: s, GoT: phi.Type()}
+	r.Borrow = mergeBorrow(conds, vals)
 	// keep provenance/closure if identical across edges
 	if vals[0].Prov != nil {
 		same := true
@@ -403,6 +422,56 @@ func (fr *Frame) mergeVals(phi *ssa.Phi, conds []string, vals []*Val) *Val {
 		}
 	}
 	return r
+}
+
+// mergeBorrow joins the borrow descriptors of the values meeting at a phi (nil if none is borrowed).
+func mergeBorrow(conds []string, vals []*Val) *Borrow {
+	any := false
+	for _, v := range vals {
+		if v.Borrow != nil {
+			any = true
+		}
+	}
+	if !any {
+		return nil
+	}
+	get := func(v *Val) (string, string, string) {
+		if v.Borrow == nil {
+			return "false", "0", "0"
+		}
+		return v.Borrow.Active, v.Borrow.Reader, v.Borrow.Epoch
+	}
+	a, r, e := get(vals[len(vals)-1])
+	for i := len(vals) - 2; i >= 0; i-- {
+		ai, ri, ei := get(vals[i])
+		a, r, e = ite(conds[i], ai, a), ite(conds[i], ri, r), ite(conds[i], ei, e)
+	}
+	return &Borrow{Active: a, Reader: r, Epoch: e}
+}
+
+// useBytes: reading (or appending to) a byte slice that may be borrowed from a bufio.Reader requires that the
+// reader has not been read since the slice was handed out.
+func (fr *Frame) useBytes(ins ssa.Instruction, v *Val, what string) {
+	if v == nil || v.Borrow == nil {
+		return
+	}
+	ex := fr.ex
+	re := ex.get(fr.cur, fr.ghost("RE"))
+	g := imp(v.Borrow.Active, eq("(select "+re+" "+v.Borrow.Reader+")", v.Borrow.Epoch))
+	ex.vc.oblige("borrow", ex.oblName(fr.key+"/borrow-valid@"+what), fr.curReach, g, "a slice returned by bufio.Reader.ReadLine is used only before the next read on that reader: "+what, ex.posOf(ins.Pos()), nil)
+	ex.vc.assume(imp(fr.curReach, g))
+}
+
+// ownBytes: a byte slice that outlives the current read (stored in the heap, carried around a loop, returned
+// without a borrowed-result declaration, sent on a channel) must not alias a reader's buffer.
+func (fr *Frame) ownBytes(ins ssa.Instruction, v *Val, what string) {
+	if v == nil || v.Borrow == nil {
+		return
+	}
+	ex := fr.ex
+	g := not(v.Borrow.Active)
+	ex.vc.oblige("borrow", ex.oblName(fr.key+"/borrow-escape@"+what), fr.curReach, g, "a slice returned by bufio.Reader.ReadLine does not escape: "+what, ex.posOf(ins.Pos()), nil)
+	ex.vc.assume(imp(fr.curReach, g))
 }
 
 func samePath(a, b *LPath) bool {
@@ -445,6 +514,37 @@ func (fr *Frame) loopEnv(li *loopInfo, phiVals map[*ssa.Phi]*Val, st *State) *En
 		}
 		if vv, ok := fr.vals[v]; ok && vv.T != "" {
 			env.vars[n] = vv
+		}
+	}
+	// a local with several definitions: the definition that dominates the header and is dominated by every
+	// other dominating definition (the value the variable has when the loop is entered)
+	for n, cands := range fr.multi {
+		if _, ok := env.vars[n]; ok || len(cands) < 2 {
+			continue
+		}
+		var best ssa.Instruction
+		ambiguous := false
+		for _, c := range cands {
+			ins, ok := c.(ssa.Instruction)
+			if !ok || ins.Block() == nil || li.body[ins.Block().Index] || !ins.Block().Dominates(li.header) {
+				continue
+			}
+			switch {
+			case best == nil:
+				best = ins
+			case best.Block() == ins.Block():
+				ambiguous = true
+			case best.Block().Dominates(ins.Block()):
+				best = ins
+			case ins.Block().Dominates(best.Block()):
+			default:
+				ambiguous = true
+			}
+		}
+		if best != nil && !ambiguous {
+			if vv, ok := fr.vals[best.(ssa.Value)]; ok && vv.T != "" {
+				env.vars[n] = vv
+			}
 		}
 	}
 	return env
@@ -567,6 +667,22 @@ func (fr *Frame) enterLoop(li *loopInfo, preds []*ssa.BasicBlock, conds []string
 			name = phi.Name()
 		}
 		v := &Val{T: vc.fresh(name, s), S: s, GoT: phi.Type()}
+		// a loop-carried byte slice is borrowed only in the first iteration (back edges must carry owned
+		// slices - checked there); whether this is the first iteration is left open
+		var evals []*Val
+		var econds []string
+		for pi, p := range preds {
+			for i, pp := range b.Preds {
+				if pp == p {
+					evals = append(evals, fr.val(phi.Edges[i]))
+					econds = append(econds, conds[pi])
+				}
+			}
+		}
+		if eb := mergeBorrow(econds, evals); eb != nil {
+			first := vc.fresh("first_iter", SBool)
+			v.Borrow = &Borrow{Active: and(first, eb.Active), Reader: eb.Reader, Epoch: eb.Epoch}
+		}
 		// provenance survives if all edges agree syntactically (e.g. ranged slice)
 		fr.vals[phi] = v
 		phiVals[phi] = v
@@ -598,6 +714,22 @@ func (ex *Exec) mergeStatesNoDefine(states []*State) *State { return states[0] }
 func (fr *Frame) checkBackEdge(from *ssa.BasicBlock, li *loopInfo, cond string) {
 	ex := fr.ex
 	spec := li.spec
+	for _, ins := range li.header.Instrs {
+		phi, ok := ins.(*ssa.Phi)
+		if !ok {
+			break
+		}
+		for i, pp := range li.header.Preds {
+			if pp == from {
+				if bv := fr.val(phi.Edges[i]); bv.Borrow != nil {
+					saveReach := fr.curReach
+					fr.curReach = cond
+					fr.ownBytes(from.Instrs[len(from.Instrs)-1], bv, "carried around loop "+fmt.Sprint(li.ordinal))
+					fr.curReach = saveReach
+				}
+			}
+		}
+	}
 	if spec == nil {
 		return
 	}
@@ -619,35 +751,35 @@ func (fr *Frame) checkBackEdge(from *ssa.BasicBlock, li *loopInfo, cond string) 
 	if len(spec.Steps) > 0 {
 		stAtEdge := fr.cur.Clone()
 		fr.pending = append(fr.pending, func() {
-		senv := fr.baseEnv(stAtEdge)
-		senv.prev = li.headSt
-		for n, v := range fr.names {
-			if vv, ok := fr.vals[v]; ok && vv.T != "" {
-				if _, exists := senv.vars[n]; !exists {
-					senv.vars[n] = vv
-				}
-			}
-		}
-		for _, bb := range fr.fn.Blocks {
-			if !li.body[bb.Index] {
-				continue
-			}
-			for _, ins := range bb.Instrs {
-				if sel, ok := ins.(*ssa.Select); ok {
-					if sv, ok := fr.vals[sel]; ok && sv.Tup != nil {
-						senv.vars["$case"] = sv.Tup[0]
+			senv := fr.baseEnv(stAtEdge)
+			senv.prev = li.headSt
+			for n, v := range fr.names {
+				if vv, ok := fr.vals[v]; ok && vv.T != "" {
+					if _, exists := senv.vars[n]; !exists {
+						senv.vars[n] = vv
 					}
 				}
 			}
-		}
-		for k, stp := range spec.Steps {
-			label := stp.Label
-			if label == "" {
-				label = fmt.Sprint(k)
+			for _, bb := range fr.fn.Blocks {
+				if !li.body[bb.Index] {
+					continue
+				}
+				for _, ins := range bb.Instrs {
+					if sel, ok := ins.(*ssa.Select); ok {
+						if sv, ok := fr.vals[sel]; ok && sv.Tup != nil {
+							senv.vars["$case"] = sv.Tup[0]
+						}
+					}
+				}
 			}
-			g := ex.trBool(stp.Expr, senv)
-			ex.vc.oblige("step", ex.oblName(fmt.Sprintf("%s/step@loop%d:%s", fr.key, li.ordinal, label)), cond, g, stp.Src, ex.posOf(from.Instrs[len(from.Instrs)-1].Pos()), nil)
-		}
+			for k, stp := range spec.Steps {
+				label := stp.Label
+				if label == "" {
+					label = fmt.Sprint(k)
+				}
+				g := ex.trBool(stp.Expr, senv)
+				ex.vc.oblige("step", ex.oblName(fmt.Sprintf("%s/step@loop%d:%s", fr.key, li.ordinal, label)), cond, g, stp.Src, ex.posOf(from.Instrs[len(from.Instrs)-1].Pos()), nil)
+			}
 		})
 	}
 	env := fr.loopEnv(li, phiVals, fr.cur)
